@@ -3,7 +3,7 @@
 (* Sentry report of locally built and decoded values.  Serves C09, C15.      *)
 EXTENDS MCGen
 OpsV == {"GoNew", "Sentinel", "Errno", "New", "Newf", "NewfW", "PkgNew", "Unimplemented",
-         "AssertionFailedf", "ULeaf", "Wrap", "Wrapf", "WithMessage", "WithStack", "WithHint",
+         "AssertionFailedf", "ULeaf", "Wrap", "Wrapf", "WithMessage", "WithMessagef", "WithHintf", "WithDetailf", "UnimplementedErrorf",  "WithStack", "WithHint",
          "WithDetail", "WithSafeDetails", "WithTelemetry", "WithDomain", "WithIssueLink",
          "WithContextTags", "WithAssertionFailure", "Mark", "WithSecondaryError",
          "Handled", "HandledWithMessage", "HandledInDomain", "HandleAsAssertionFailure",
